@@ -34,10 +34,14 @@ ObsSt(e) == [ conn  |-> SetOf(e.st.conn),
               cbind |-> SetOf(e.st.cbind),
               data  |-> [c \in Cells |-> e.st.data[c]],
               rdata |-> [p \in Peers |-> e.st.rdata[p]],
+              ucs   |-> SetOf(e.st.ucs),
+              nid   |-> e.st.nid,
+              \* not observable through the API: carried by the monitor (see Step)
+              unans |-> st.unans, cbs |-> st.cbs, rcbs |-> st.rcbs,
               nsub  |-> 0, nbind |-> 0 ]
 
 NormDg(d) == [k |-> d.k, ok |-> d.ok, ref |-> d.ref, src |-> d.src, dst |-> d.dst,
-              fn |-> d.fn, val |-> d.val, ents |-> SetOf(d.ents)]
+              fn |-> d.fn, val |-> d.val, ents |-> SetOf(d.ents), ucs |-> SetOf(d.ucs)]
 ObsOutSeq(e, p) == [i \in DOMAIN e.out[p] |-> NormDg(e.out[p][i])]
 ObsOut(e) == [p \in Peers |-> SetOf(ObsOutSeq(e, p))]
 
@@ -52,6 +56,11 @@ ObsDefects(e) ==
     (IF e.panic # "" THEN {"panic"} ELSE {})
     \cup (IF \A p \in Peers : NoDup(ObsOutSeq(e, p)) THEN {} ELSE {"dupout"})
     \cup (IF NoDup(e.ev) THEN {} ELSE {"dupev"})
+    \cup (IF NoDup(e.cbf) THEN {} ELSE {"dupcb"})
+    \* HasUseCaseSupport agrees with the registry read from the node management data, which holds one record per key
+    \cup (IF /\ SetOf(e.st.hasuc) = {[e |-> x.e, actor |-> x.actor, name |-> x.name] : x \in SetOf(e.st.ucs)}
+             /\ NoDup([i \in DOMAIN e.st.ucs |-> <<e.st.ucs[i].e, e.st.ucs[i].actor, e.st.ucs[i].name>>])
+          THEN {} ELSE {"hasuc"})
     \cup (IF NoDup(e.st.subids) /\ NoDup(e.st.bindids) /\ NoDup(e.st.subs) /\ NoDup(e.st.binds)
              /\ \A p \in Peers : \A i \in DOMAIN e.out[p] : NoDup(e.out[p][i].ids) /\ Len(e.out[p][i].ids) = Len(e.out[p][i].ents)
           THEN {} ELSE {"ids"})
@@ -74,7 +83,10 @@ Comp(x, c) == CASE c = "out"   -> x.out
                 [] c = "cbind" -> x.st.cbind
                 [] c = "data"  -> x.st.data
                 [] c = "rdata" -> x.st.rdata
-StateComps == {"out", "ev", "ret", "conn", "known", "subs", "binds", "csub", "cbind", "data", "rdata"}
+                [] c = "cbf"   -> x.cbf
+                [] c = "ucs"   -> x.st.ucs
+                [] c = "reqs"  -> x.st.nid
+StateComps == {"out", "ev", "ret", "conn", "known", "subs", "binds", "csub", "cbind", "data", "rdata", "cbf", "reqs", "ucs"}
 Mismatch(o, obs) == {c \in Checked \cap StateComps : Comp(o, c) # Comp(obs, c)}
 
 Init == l = 1 /\ st = InitSt /\ bad = << >> /\ devs = << >>
@@ -88,13 +100,17 @@ Step ==
     /\ LET e == Trace[l] IN
        IF e.a.a = "reset" THEN st' = InitSt /\ UNCHANGED <<bad, devs>>
        ELSE LET a    == NormAct(e.a)
-                obs  == [st |-> ObsSt(e), out |-> ObsOut(e), ev |-> SetOf(e.ev), ret |-> e.ret]
+                obs  == [st |-> ObsSt(e), out |-> ObsOut(e), ev |-> SetOf(e.ev), ret |-> e.ret, cbf |-> SetOf(e.cbf)]
                 outs == Outcomes(st, a)
                 hit  == {o \in outs : Mismatch(o, obs) = {}}
                 od   == ObsDefects(e) \cap Checked
                 \* the mismatching components of the closest allowed outcome
                 best == CHOOSE o \in outs : \A o2 \in outs : Cardinality(Mismatch(o, obs)) <= Cardinality(Mismatch(o2, obs))
-            IN /\ st' = obs.st                                       \* follow the code
+            IN \* follow the code; the registered callbacks cannot be read back through the API and are taken from the
+               \* allowed outcome that matched (or the closest one)
+               /\ st' = [obs.st EXCEPT !.cbs = (IF hit # {} THEN CHOOSE o \in hit : TRUE ELSE best).st.cbs,
+                                       !.rcbs = (IF hit # {} THEN CHOOSE o \in hit : TRUE ELSE best).st.rcbs,
+                                       !.unans = (IF hit # {} THEN CHOOSE o \in hit : TRUE ELSE best).st.unans]
                /\ IF hit = {} \/ od # {}
                   THEN /\ bad' = Append(bad, [line |-> l, comps |-> Mismatch(best, obs) \cup od, a |-> e.a])
                        /\ devs' = devs
